@@ -30,7 +30,7 @@ Definition chan_eqb (a b : chan) : bool :=
 Definition is_closed (c : chan) : bool := chan_eqb c Closed.
 
 Inductive cname := NSend | NWake | NRecv | NDone | NMux | NDelS | NDelL | NSrvNew | NSrvEvents | NSrvDone | NLsnDone.
-Inductive fault := DoubleClose (c : cname) | CloseNil (c : cname) | SendOnClosed (c : cname).
+Inductive fault := DoubleClose (c : cname) | CloseNil (c : cname) | SendOnClosed (c : cname) | NilSocket.
 Definition is_send_fault (f : fault) : bool := match f with SendOnClosed _ => true | _ => false end.
 
 Inductive ver := Old | New.
@@ -71,7 +71,9 @@ Record world := World {
   (* server *)
   run_ : nat;           (* Server.run: 0 not started, 1 loop running, 2 shut down *)
   sctx_done : bool; active : nat; dellq : nat;
-  sv_new : chan; sv_dell : chan; sv_dels : chan; sv_events : chan; sv_done : chan
+  sv_new : chan; sv_dell : chan; sv_dels : chan; sv_events : chan; sv_done : chan;
+  (* Listener.Replace: stateReplacing, l.listener == nil, Listener.lock held *)
+  l_repl : bool; l_nil : bool; l_rlock : bool
 }.
 
 Inductive side := Cli | Srv.
@@ -81,11 +83,11 @@ Definition put (d : side) (s : sess) (w : world) : world :=
   | Cli => World s (srv w) (listed w) (delq w) (ctxdone w) (reach w) (c2s w) (callsback w) (sent_shut w)
              (cl_started w) (ce_started w) (lt_started w) (l_closing w) (l_closed w) (l_wakec w) (l_done w)
              (sock_closed w) (lctx_done w) (run_ w) (sctx_done w) (active w) (dellq w) (sv_new w) (sv_dell w)
-             (sv_dels w) (sv_events w) (sv_done w)
+             (sv_dels w) (sv_events w) (sv_done w) (l_repl w) (l_nil w) (l_rlock w)
   | Srv => World (cli w) s (listed w) (delq w) (ctxdone w) (reach w) (c2s w) (callsback w) (sent_shut w)
              (cl_started w) (ce_started w) (lt_started w) (l_closing w) (l_closed w) (l_wakec w) (l_done w)
              (sock_closed w) (lctx_done w) (run_ w) (sctx_done w) (active w) (dellq w) (sv_new w) (sv_dell w)
-             (sv_dels w) (sv_events w) (sv_done w)
+             (sv_dels w) (sv_events w) (sv_done w) (l_repl w) (l_nil w) (l_rlock w)
   end.
 
 (* field updates of a session *)
@@ -103,7 +105,7 @@ Definition set_mux (c : chan) (s : sess) := Sess (closing s) (shutdown_ s) (clos
 Definition upd_misc (w : world) (li : bool) (dq : nat) (cx rc : bool) (cs : nat) (sc ss : bool) : world :=
   World (cli w) (srv w) li dq cx rc cs sc ss (cl_started w) (ce_started w) (lt_started w) (l_closing w) (l_closed w)
         (l_wakec w) (l_done w) (sock_closed w) (lctx_done w) (run_ w) (sctx_done w) (active w) (dellq w) (sv_new w)
-        (sv_dell w) (sv_dels w) (sv_events w) (sv_done w).
+        (sv_dell w) (sv_dels w) (sv_events w) (sv_done w) (l_repl w) (l_nil w) (l_rlock w).
 Definition set_listed b w := upd_misc w b (delq w) (ctxdone w) (reach w) (c2s w) (callsback w) (sent_shut w).
 Definition set_delq n w := upd_misc w (listed w) n (ctxdone w) (reach w) (c2s w) (callsback w) (sent_shut w).
 Definition set_ctxdone w := upd_misc w (listed w) (delq w) true (reach w) (c2s w) (callsback w) (sent_shut w).
@@ -112,18 +114,23 @@ Definition set_sent b w := upd_misc w (listed w) (delq w) (ctxdone w) (reach w) 
 Definition upd_ghost (w : world) (a b c : bool) : world :=
   World (cli w) (srv w) (listed w) (delq w) (ctxdone w) (reach w) (c2s w) (callsback w) (sent_shut w) a b c (l_closing w)
         (l_closed w) (l_wakec w) (l_done w) (sock_closed w) (lctx_done w) (run_ w) (sctx_done w) (active w) (dellq w)
-        (sv_new w) (sv_dell w) (sv_dels w) (sv_events w) (sv_done w).
+        (sv_new w) (sv_dell w) (sv_dels w) (sv_events w) (sv_done w) (l_repl w) (l_nil w) (l_rlock w).
 Definition upd_lsn (w : world) (lc ld lw : bool) (ch : chan) (sk lx : bool) : world :=
   World (cli w) (srv w) (listed w) (delq w) (ctxdone w) (reach w) (c2s w) (callsback w) (sent_shut w) (cl_started w)
         (ce_started w) (lt_started w) lc ld lw ch sk lx (run_ w) (sctx_done w) (active w) (dellq w) (sv_new w)
-        (sv_dell w) (sv_dels w) (sv_events w) (sv_done w).
+        (sv_dell w) (sv_dels w) (sv_events w) (sv_done w) (l_repl w) (l_nil w) (l_rlock w).
 Definition upd_srv (w : world) (r : nat) (sx : bool) (ac dl : nat) (c1 c2 c3 c4 c5 : chan) : world :=
   World (cli w) (srv w) (listed w) (delq w) (ctxdone w) (reach w) (c2s w) (callsback w) (sent_shut w) (cl_started w)
         (ce_started w) (lt_started w) (l_closing w) (l_closed w) (l_wakec w) (l_done w) (sock_closed w) (lctx_done w)
-        r sx ac dl c1 c2 c3 c4 c5.
+        r sx ac dl c1 c2 c3 c4 c5 (l_repl w) (l_nil w) (l_rlock w).
+
+Definition upd_repl (w : world) (r n k : bool) : world :=
+  World (cli w) (srv w) (listed w) (delq w) (ctxdone w) (reach w) (c2s w) (callsback w) (sent_shut w) (cl_started w)
+        (ce_started w) (lt_started w) (l_closing w) (l_closed w) (l_wakec w) (l_done w) (sock_closed w) (lctx_done w)
+        (run_ w) (sctx_done w) (active w) (dellq w) (sv_new w) (sv_dell w) (sv_dels w) (sv_events w) (sv_done w) r n k.
 
 (* where a nested call returns to *)
-Inductive ret := RDone | RSrvShut2 (r : ret2) | RSrvShut3 (r : ret2)
+Inductive ret := RDone | RSrvShut2 (r : ret2) | RSrvShut3 (r : ret2) | RRepl
 with ret2 := R2Done | R2SvcWait.
 
 Inductive pc :=
@@ -148,13 +155,15 @@ Inductive pc :=
 | SV0 | SV1 | SV2
 (* Listener.Close, Listener.listen *)
 | LC0 (r : ret) | LC1 (r : ret) | LC2 (r : ret) | LC3 (r : ret) | LC4 (r : ret)
-| LTs | LT0 | LT1 | LT2 | LT3 | LT4.
+| LTs | LT0 | LT1 | LT2 | LT3 | LT4
+(* Listener.Replace(addr, p); ok = the new address can be bound *)
+| LR0 (ok : bool) | LR1 (ok : bool) | LR2 (ok : bool) | LR3 (ok : bool) | LR4 | LR5.
 
 Inductive outcome := Step (w : world) (p : pc) | Blocked | Fault (f : fault).
 
 Definition ret2_pc (r : ret2) : pc := match r with R2Done => PDone | R2SvcWait => SV2 end.
 Definition ret_pc (r : ret) : pc :=
-  match r with RDone => PDone | RSrvShut2 r2 => SS2 r2 | RSrvShut3 r2 => SS3 r2 end.
+  match r with RDone => PDone | RSrvShut2 r2 => SS2 r2 | RSrvShut3 r2 => SS3 r2 | RRepl => LR5 end.
 
 Definition close_chan (n : cname) (c : chan) : res chan :=
   match c with Open => Ok Closed | Closed => Err 1 | Nil => Err 2 end.
@@ -346,19 +355,38 @@ Definition exec (m : mode) (p : pc) (w : world) : outcome :=
   | LC0 r => Step w (if l_closed w then ret_pc r else LC1 r)
   | LC1 r => Step (upd_lsn w true (l_closed w) (l_wakec w) (l_done w) (sock_closed w) (lctx_done w)) (LC2 r)
   | LC2 r => Step (upd_lsn w (l_closing w) (l_closed w) (l_wakec w) (l_done w) (sock_closed w) true) (LC3 r)
-  | LC3 r => Step (upd_lsn w (l_closing w) (l_closed w) (l_wakec w) (l_done w) true (lctx_done w)) (LC4 r)
+  | LC3 r =>                                                                   (* if !Replacing { l.listener.Close() } *)
+      if l_repl w then Step w (LC4 r)
+      else if l_nil w then Fault NilSocket
+      else Step (upd_lsn w (l_closing w) (l_closed w) (l_wakec w) (l_done w) true (lctx_done w)) (LC4 r)
   | LC4 r => if is_closed (l_done w) then Step w (ret_pc r) else Blocked
   | LTs => if lt_started w then Step w PDone
            else Step (upd_ghost w (cl_started w) (ce_started w) true) LT0
-  | LT0 =>
-      if l_closed w || l_closing w then Step w LT1
-      else if lctx_done w then Step (upd_lsn w true (l_closed w) (l_wakec w) (l_done w) (sock_closed w) (lctx_done w)) LT0
-      else Blocked                                                             (* in Accept *)
+  | LT0 =>                                                                     (* the guards in the order of the code: *)
+      if lctx_done w && negb (l_closing w) then                                (* select <-ctx.Done(): Set(stateClosing) *)
+        Step (upd_lsn w true (l_closed w) (l_wakec w) (l_done w) (sock_closed w) (lctx_done w)) LT0
+      else if l_closed w || l_closing w then Step w LT1                        (* if Closing() break *)
+      else if l_nil w && l_repl w then Blocked                                 (* socket nil, being replaced: nap 30 ms, continue *)
+      else if l_nil w then Fault NilSocket                                     (* l.listener.Accept() on a nil socket *)
+      else Blocked                                                             (* in Accept (an error while Replacing: continue) *)
   | LT1 => Step (upd_lsn w (l_closing w) (l_closed w) true (l_done w) (sock_closed w) true) LT2
-  | LT2 => Step (upd_lsn w (l_closing w) (l_closed w) (l_wakec w) (l_done w) true (lctx_done w)) LT3
+  | LT2 =>                                                                     (* if l.listener != nil { l.listener.Close() } *)
+      Step (if l_nil w then w else upd_lsn w (l_closing w) (l_closed w) (l_wakec w) (l_done w) true (lctx_done w)) LT3
   | LT3 =>                                                                     (* l.s.delListener <- l.name *)
       if is_closed (sv_dell w) then Fault (SendOnClosed NDelL)
       else Step (upd_srv w (run_ w) (sctx_done w) (active w) (S (dellq w)) (sv_new w) (sv_dell w) (sv_dels w) (sv_events w) (sv_done w)) LT4
+  (* ---- Listener.Replace (serialised by Listener.lock) ------------------------------------------------ *)
+  | LR0 b => if l_rlock w then Blocked else Step (upd_repl w (l_repl w) (l_nil w) true) (LR1 b)
+  | LR1 b => Step (upd_repl w true (l_nil w) (l_rlock w)) (LR2 b)             (* Set(stateReplacing) *)
+  | LR2 b =>                                                                   (* if l.listener != nil { Close() }; l.listener = nil *)
+      let w1 := if l_nil w then w else upd_lsn w (l_closing w) (l_closed w) (l_wakec w) (l_done w) true (lctx_done w) in
+      Step (upd_repl w1 (l_repl w1) true (l_rlock w1)) (LR3 b)
+  | LR3 b =>                                                                   (* p.Listen(l.ctx, h): fails on a taken address (a canceled
+                                                                                  context does not stop a TCP bind: observed) *)
+      if b then Step (upd_repl w (l_repl w) false (l_rlock w)) LR4
+      else Step w (LC0 RRepl)                                                  (* l.Close(); return err *)
+  | LR4 => Step (upd_repl w false (l_nil w) (l_rlock w)) LR5                   (* Unset(stateReplacing) *)
+  | LR5 => Step (upd_repl w (l_repl w) (l_nil w) false) PDone                  (* Unlock *)
   | LT4 =>                                                                     (* Set(stateClosed); close(l.ch) *)
       match close_fault NLsnDone (l_done w) with
       | Some f => Fault f
@@ -409,7 +437,7 @@ Definition fresh_server_side (packets chan_mode : bool) : sess :=
 (* a registered pair: listener running, server loop running, both goroutines of the client started *)
 Definition world0 (cpk spk chm rch cbk : bool) : world :=
   World (fresh_client cpk chm) (fresh_server_side spk chm) true 0 false rch 0 cbk false
-        true true true false false false Open false false 1 false 1 0 Open Open Open Open Open.
+        true true true false false false Open false false 1 false 1 0 Open Open Open Open Open false false false.
 
 (* ---- correspondence -------------------------------------------------------------------------------- *)
 (* round-robin: every thread gets one turn per round *)
@@ -420,7 +448,7 @@ Fixpoint repeat_sched (rounds : nat) (r : list nat) : list nat :=
 Definition pc_of_code (c : Z) : pc :=
   match c with
   | 1 => CC0 true | 2 => CC0 false | 3 => CX | 4 => SC0 RDone | 5 => SR0 | 6 => SH0 true | 7 => SH0 false
-  | 9 => SV0 | 10 => LC0 RDone | 11 => CL0 | 12 => CE0 | 13 => SL0 | 14 => LT0
+  | 9 => SV0 | 10 => LC0 RDone | 11 => CL0 | 12 => CE0 | 13 => SL0 | 14 => LT0 | 20 => LR0 true | 21 => LR0 false
   | _ => PDone
   end.
 (* the goroutines that exist for a registered pair: client listen + eventer, server loop,
@@ -456,7 +484,10 @@ Inductive case :=
 (* racing groups through the real receiveSingle / Session.Close on a server-side session that
    was listed without a network: the calls of one group, did any group panic, was every session
    closed, released and unlisted afterwards *)
-| CStress (calls : list Z) (o_panic : bool) (o_all_closed : bool).
+| CStress (calls : list Z) (o_panic : bool) (o_all_closed : bool)
+(* a history of Listener.Close (10) / Replace to a free (20) or taken (21) address / Server.Close (9):
+   panicked?, every call returned?, [l closed; l.ch; server ch; Replacing bit; socket nil] at the end *)
+| CLsn (phases : list (list Z)) (o_panic : bool) (o_returned : bool) (o_final : list Z).
 
 Fixpoint run_phases (m : mode) (phases : list (list Z)) (pool : list pc) (w : world) : rstate :=
   match phases with
@@ -481,6 +512,13 @@ Definition check (c : case) : bool :=
           negb o_panic && Bool.eqb (forallb quiescent_pc (skipn (length service) pool)) o_returned
           && zlist_eqb (obs_world pool w) o_final
       end
+  | CLsn phases o_panic o_returned o_final =>
+      match model_run tree_mode false false false true false phases with
+      | Faulted _ _ => o_panic
+      | Running pool w =>
+          negb o_panic && Bool.eqb (forallb quiescent_pc (skipn (length service) pool)) o_returned
+          && zlist_eqb [b2z (l_closed w); chan_code (l_done w); chan_code (sv_done w); b2z (l_repl w); b2z (l_nil w)] o_final
+      end
   | CStress calls o_panic o_all_closed =>
       match model_run tree_mode false false false true false [calls] with
       | Faulted _ _ => o_panic
@@ -498,7 +536,7 @@ Definition check (c : case) : bool :=
    Server.Close, Listener.Close, and second starts of the per-object goroutines (no-ops) *)
 Definition entry (p : pc) : bool :=
   match p with
-  | CC0 _ | CX | SC0 RDone | SR0 | SH0 _ | SV0 | LC0 RDone | CLs | CEs | LTs | SLs | PDone => true
+  | CC0 _ | CX | SC0 RDone | SR0 | SH0 _ | SV0 | LC0 RDone | LR0 _ | CLs | CEs | LTs | SLs | PDone => true
   | _ => false
   end.
 (* the goroutines of a registered pair come first: 0 = client listen, 1 = client eventer,
